@@ -254,6 +254,7 @@ namespace {
 	{
 		std::string res;
 		res.reserve(reserve);
+		in.clear();
 		in.seekg(0);
 		std::streambuf *buf = in.rdbuf();
 		int c;
